@@ -37,8 +37,9 @@ const (
 type dval struct {
 	kind dkind
 	k    int64 // dConst
-	a    int64 // dShift: (x + a) >> sh
+	a    int64 // dShift: (x + a) >> sh, or (-x + a) >> sh when neg
 	sh   uint
+	neg  bool
 }
 
 func (v dval) String() string {
@@ -47,8 +48,11 @@ func (v dval) String() string {
 		return fmt.Sprint(v.k)
 	case dShift:
 		s := "x"
+		if v.neg {
+			s = "-x"
+		}
 		if v.a != 0 {
-			s = fmt.Sprintf("(x%+d)", v.a)
+			s = fmt.Sprintf("(%s%+d)", s, v.a)
 		}
 		if v.sh != 0 {
 			s += fmt.Sprintf(">>%d", v.sh)
@@ -139,6 +143,19 @@ func clampBig(t *big.Int) int64 {
 
 // splitGE: the sub-intervals of [lo,hi] on which v >= m holds / fails.
 func splitGE(lo, hi int64, v dval, m int64) (tlo, thi int64, tok bool, flo, fhi int64, fok bool) {
+	if v.neg {
+		// (-x + a) >> sh >= m  <=>  -x + a >= m << sh  <=>  x <= a - (m << sh)
+		T := new(big.Int).Lsh(big.NewInt(m), v.sh)
+		T.Sub(big.NewInt(v.a), T)
+		if T.Cmp(big.NewInt(hi)) >= 0 {
+			return lo, hi, true, 0, 0, false
+		}
+		if T.Cmp(big.NewInt(lo)) < 0 {
+			return 0, 0, false, lo, hi, true
+		}
+		tt := clampBig(T)
+		return lo, tt, true, tt + 1, hi, true
+	}
 	t := threshold(m, v.a, v.sh)
 	if t.Cmp(big.NewInt(lo)) <= 0 {
 		return lo, hi, true, 0, 0, false
@@ -203,9 +220,20 @@ outer:
 							r.env[x] = v
 						}
 					}
-				} else if x.Op == token.SUB {
-					if v := r.val(x.X); v.kind == dConst {
+				} else if x.Op == token.SUB || x.Op == token.XOR {
+					// -v, and ^v = -v - 1
+					v := r.val(x.X)
+					switch {
+					case v.kind == dConst && x.Op == token.SUB:
 						r.env[x] = dval{kind: dConst, k: -v.k}
+					case v.kind == dConst:
+						r.env[x] = dval{kind: dConst, k: ^v.k}
+					case v.kind == dShift && v.sh == 0:
+						nv := dval{kind: dShift, neg: !v.neg, a: -v.a}
+						if x.Op == token.XOR {
+							nv.a--
+						}
+						r.env[x] = nv
 					}
 				}
 			case *ssa.Store:
@@ -381,16 +409,30 @@ func (r *drun) binop(x *ssa.BinOp) dval {
 		switch x.Op {
 		case token.SHR:
 			if b.k >= 0 && b.k < 64 && a.sh+uint(b.k) < 64 {
-				return dval{kind: dShift, a: a.a, sh: a.sh + uint(b.k)}
+				return dval{kind: dShift, a: a.a, sh: a.sh + uint(b.k), neg: a.neg}
 			}
 		case token.ADD:
 			if a.sh == 0 {
-				return dval{kind: dShift, a: a.a + b.k}
+				return dval{kind: dShift, a: a.a + b.k, neg: a.neg}
 			}
 		case token.SUB:
 			if a.sh == 0 {
-				return dval{kind: dShift, a: a.a - b.k}
+				return dval{kind: dShift, a: a.a - b.k, neg: a.neg}
 			}
+		case token.XOR:
+			// v ^ -1 = ^v
+			if a.sh == 0 && b.k == -1 {
+				return dval{kind: dShift, a: -a.a - 1, neg: !a.neg}
+			}
+		}
+	}
+	if a.kind == dConst && b.kind == dShift && b.sh == 0 {
+		switch x.Op {
+		case token.ADD:
+			return dval{kind: dShift, a: b.a + a.k, neg: b.neg}
+		case token.SUB:
+			// k - (s x + a) = (-s) x + (k - a)
+			return dval{kind: dShift, a: a.k - b.a, neg: !b.neg}
 		}
 	}
 	return dval{}
@@ -483,32 +525,36 @@ func (r *drun) call(x *ssa.Call, lo, hi int64) ([]dpiece, bool) {
 		}
 		// Len(v) = L  <=>  2^(L-1) <= v < 2^L  (v >= 0); negative v as an unsigned 64-bit number has 64 bits
 		var out []dpiece
-		curLo := lo
-		// negative part
-		if _, _, _, fl, fh, fok := splitGE(lo, hi, v, 0); fok {
-			out = append(out, dpiece{lo: fl, hi: fh, val: dval{kind: dConst, k: 64}})
-			curLo = fh + 1
-			if fh == hi {
+		curLo, curHi := lo, hi
+		// negative part (as an unsigned 64-bit number: 64 bits); the part that remains is where v >= 0
+		{
+			tl, th, tok, fl, fh, fok := splitGE(lo, hi, v, 0)
+			if fok {
+				out = append(out, dpiece{lo: fl, hi: fh, val: dval{kind: dConst, k: 64}})
+			}
+			if !tok {
 				return out, true
 			}
+			curLo, curHi = tl, th
 		}
-		for L := int64(0); L <= 63 && curLo <= hi; L++ {
-			// v < 2^L
-			var m int64 = 1 << uint(L)
+		for L := int64(0); L <= 63; L++ {
 			if L == 63 {
-				out = append(out, dpiece{lo: curLo, hi: hi, val: dval{kind: dConst, k: L}})
-				curLo = hi + 1
+				out = append(out, dpiece{lo: curLo, hi: curHi, val: dval{kind: dConst, k: L}})
 				break
 			}
-			_, _, tok, fl, fh, fok := splitGE(curLo, hi, v, m)
+			// v < 2^L has L bits; what remains is where v >= 2^L (the lower or the upper part
+			// of the interval, depending on the sign of the slope)
+			var m int64 = 1 << uint(L)
+			tl, th, tok, fl, fh, fok := splitGE(curLo, curHi, v, m)
 			if fok {
 				out = append(out, dpiece{lo: fl, hi: fh, val: dval{kind: dConst, k: L}})
-				curLo = fh + 1
 			}
 			if !tok {
 				break
 			}
+			curLo, curHi = tl, th
 		}
+		sort.Slice(out, func(i, j int) bool { return out[i].lo < out[j].lo })
 		return out, true
 	}
 	sc := x.Call.StaticCallee()
